@@ -81,9 +81,25 @@ func loadJSONControls(verifDir string) {
 
 func addControls(cs ...Control) { controls = append(controls, cs...) }
 
+// sharedControls: properties that are decided through rules of other properties re-use those rules' controls.
+var sharedControls = map[string][]string{
+	"C03": {"full-reference-no-resync", "inline-link-readers-after-resync", "offsettree-skips-infostring-children", "refdef-rest-at-eol-offset",
+		"refdef-rest-skips-indent", "spanend-falls-back-to-source-length", "neg-offsettree-lifo-offsetspan-helper", "neg-finish-inline-link-helper"},
+	"C06": {"isHex-upper-bound", "punctuation-drops-Pc", "seven-hashes-heading", "fence-needs-four-bytes", "underscore-key-constant",
+		"no-rebase-after-match", "star-key-ignores-length", "list-accepts-any-child", "block-quote-accepts-items", "item-delimiter-constant",
+		"strong-opens-b", "post-list-tags-swapped", "post-h5-closes-h6", "soft-break-space-renders-newline", "escapeHTML-forgets-lt",
+		"Extract-last-definition-wins", "Extract-children-ascending", "ref-lowercased-instead-of-folded",
+		"neg-isHex-via-IndexByte", "neg-em-strong-via-if-chain", "neg-canContain-as-switch", "neg-match-predicate-early-returns", "neg-Extract-exists-test-split"},
+}
+
 func controlApplies(ct Control, prop string) bool {
 	for _, p := range ct.Props {
 		if p == prop {
+			return true
+		}
+	}
+	for _, n := range sharedControls[prop] {
+		if n == ct.Name {
 			return true
 		}
 	}
